@@ -354,7 +354,15 @@ let zz_media x = \"application/json\";
 let zz_tree k v = rec t { 'key k, 'val v, 'kids [t] };
 res /zz-tags on get -> <status=(zz_code @zz_window), headers=(zz_rate @zz_quota), media=(zz_media @zz_kind), {}>;
 res /zz-tags2 on put -> <status=(zz_code (zz_tree num str)), headers=(zz_rate (zz_tree str num)), {}>;
+res /zz-media on get -> <status=200, media=\"application/json\", { 'a num }> :: <status=200, media=\"Application/JSON\", { 'b str }> :: <status=404, media=\"text/plain\", str>;
+use \"zz_dup_a.oal\" as zz_dup_a;
+use \"zz_dup_b.oal\" as zz_dup_b;
+res /zz-dup on get -> <zz_dup_a.@zz_item>;
 ";
+/// two imported modules that declare one reference name differently (whichever is evaluated
+/// first is the component; in source order that is always the same one)
+const DUP_A: &str = "let @zz_item = { 'fromA num };\n";
+const DUP_B: &str = "let @zz_item = { 'fromB str };\n";
 
 pub fn c06_cfg(rng: &mut Rng) -> GenCfg {
     if rng.chance(1, 8) {
@@ -410,6 +418,8 @@ pub fn run(seed: u64, run: u64) -> Report {
             }
             t.push_str(TAGS_WITH_SIDE_EFFECTS);
         }
+        files.insert("zz_dup_a.oal".into(), DUP_A.into());
+        files.insert("zz_dup_b.oal".into(), DUP_B.into());
     }
     let thorough = std::env::var("OALSIM_TIER").map(|t| t == "thorough").unwrap_or(false);
     let n_env = if thorough { 8 } else { 6 };
